@@ -18,6 +18,10 @@ import Nq.Lemmas.C07Qq
 import Nq.Lemmas.C07Daemons
 import Nq.Lemmas.C07Date
 import Nq.Lemmas.HopCount
+import Nq.Lemmas.C07Flags
+import Nq.Lemmas.C07Strict
+import Nq.Lemmas.C07Qmqp2
+import Nq.Lemmas.C07Session
 
 namespace Nq.Props.C07
 open Nq Nq.QmailC Nq.Received Nq.Netstring
@@ -65,7 +69,8 @@ theorem C07_cut_no_envelope (q : QQ) (sender : Bytes) (eops : List QOp) (h : ∀
     envComplete ((q.from_ sender).run eops).envPipe = false :=
   envPipe_good _ (QQ.run_good eops _ (QQ.from_good q sender) h)
 
-/-- … and before `qmail_from` the envelope pipe is empty. -/
+/-- … and before `qmail_from` the envelope pipe is empty.  (BY DEFINITION of `QQ.envPipe` — `if inEnv then … else []`;
+    kept as a named step of the cut argument, not a property clause of its own.) -/
 theorem C07_cut_before_from (q : QQ) (h : q.inEnv = false) : q.envPipe = [] ∧ envComplete q.envPipe = false := by
   simp [QQ.envPipe, h, envComplete, envParse]
 
@@ -466,7 +471,9 @@ theorem verdict_ok (exit : Nat) (crashed flagerr : Bool) (text : Bytes) (ht : Te
   · exact Or.inl h
   · exact Or.inr (C07_verdict_class exit crashed flagerr text ht h).1
 
-/-- **C07_qmtp_ack.**  The status qmail-qmtpd sends for the recipients it handed to the queue is `K…` exactly when
+/-- **C07_qmtp_ack.**  (Reply SELECTION for arbitrary flag values; the flags of the record computed from the input are
+    characterised by `C07_qmtp_size` / `C07_qmtp_strict`, the composed refusals are `C07_qmtp_refused`, the converse is
+    `C07_qmtp_committed_ack`.)  The status qmail-qmtpd sends for the recipients it handed to the queue is `K…` exactly when
     `qmail_close` reported success, the sender was acceptable and the size limit did not trip; otherwise it is `D…`
     for an unacceptable sender and for the size limit, and the queue's own `D…`/`Z…` verdict in the remaining cases. -/
 theorem C07_qmtp_ack (m : Qmtp.Msg) (v : Bytes) (now pid : Nat) (hv : VerdictOK v) :
@@ -492,13 +499,17 @@ theorem C07_qmtp_ack (m : Qmtp.Msg) (v : Bytes) (now pid : Nat) (hv : VerdictOK 
   · simp [Qmtp.sTooBig]
 
 /-- per recipient: `K` only for a recipient that was handed to the queue (failure byte 0); every other recipient
-    (NUL, ≥ 1000 bytes, not in rcpthosts) gets a permanent `D` -/
+    (NUL, ≥ 1000 bytes, not in rcpthosts) gets a permanent `D`.  (The first conjunct is the DEFINITION of `replies`
+    restated; the content is in the two `D` facts, and in `C07_qmtp_strict`, which ties the failure bytes and the envelope
+    recipients to the recipient netstrings of the input.) -/
 theorem C07_qmtp_rcpt_reply (m : Qmtp.Msg) (res : Bytes) :
     Qmtp.replies m res = m.failure.map (fun f => if f = 0 then Qmtp.netstring res else if f = Qmtp.fD then Qmtp.sRcpthosts else Qmtp.sCantHandle) ∧
     (Qmtp.sRcpthosts.drop 3).head? = some 68 ∧ (Qmtp.sCantHandle.drop 3).head? = some 68 :=
   ⟨rfl, by decide, by decide⟩
 
-/-- which recipients are refused: over-long (with RELAYCLIENT appended), containing NUL, or not in rcpthosts -/
+/-- which recipients are refused: over-long (with RELAYCLIENT appended), containing NUL, or not in rcpthosts.  (An
+    UNFOLDING of `rcptFail` into a readable condition; `rcpthostsOk` itself is tied to the C code by the correspondence
+    run only.  "Malformed / over-long / NUL ⇒ refused and not in the envelope" is `C07_qmtp_strict` + `C07_qmtp_refused`.) -/
 theorem C07_qmtp_rcpt_policy (cfg : Qmtp.Cfg) (a : Bytes) :
     Qmtp.rcptFail cfg a = 0 ↔
       (a.length + (cfg.relay.getD []).length < Nq.Gen.C07.qmtpAddrMax ∧ a.contains 0 = false ∧
@@ -519,7 +530,8 @@ theorem C07_qmtp_rcpt_policy (cfg : Qmtp.Cfg) (a : Bytes) :
     | none =>
       cases hh : rcpthostsOk cfg.rcpthosts a <;> cases hn : a.contains 0 <;> simp [hr] at hl' ⊢ <;> try exact hl'
 
-/-- **C07_qmqp_ack.**  qmail-qmqpd answers `K…` exactly when `qmail_close` reported success and no address was
+/-- **C07_qmqp_ack.**  (Reply SELECTION for an arbitrary `flagok`; for the record computed from the input see
+    `C07_qmqp_strict`, `C07_qmqp_refused`, `C07_qmqp_committed_ack`.)  qmail-qmqpd answers `K…` exactly when `qmail_close` reported success and no address was
     over-long or contained NUL; a bad address gives a permanent `D`; otherwise the queue's verdict is passed on. -/
 theorem C07_qmqp_ack (flagok : Bool) (v : Bytes) (now pid : Nat) (hv : VerdictOK v) :
     ((Qmqp.result flagok v now pid).head? = some 75 ↔ (v = [] ∧ flagok = true)) ∧
@@ -541,7 +553,10 @@ theorem C07_qmqp_ack (flagok : Bool) (v : Bytes) (now pid : Nat) (hv : VerdictOK
 
 /-- **C07_smtp_ack.**  After DATA qmail-smtpd says `250 ok …` exactly when `qmail_close` reported success; otherwise
     554 for too many hops, else 552 for the size limit, else `554`/`451` followed by the queue's text according to its
-    `D`/`Z` class. -/
+    `D`/`Z` class.  (A statement about the reply SELECTION for arbitrary flag values; what `hopsBad` / `overflow` are for
+    the record computed from the input: `C07_smtp_hops`, `C07_smtp_size`, `C07_smtp_oversize`.  That no OTHER `2xx` line is
+    produced after DATA — by the command loop, which is not modelled in Lean — is checked by the driver's `stray-ack`
+    oracle only.) -/
 theorem C07_smtp_ack (d : Smtp.Data) (qqx : Bytes) (now pid : Nat) :
     ((Smtp.reply d qqx now pid).take 4 = [50, 53, 48, 32] ↔ qqx = []) ∧
     (qqx ≠ [] → d.hopsBad = true → Smtp.reply d qqx now pid = Smtp.sHops) ∧
@@ -557,7 +572,8 @@ theorem C07_smtp_ack (d : Smtp.Data) (qqx : Bytes) (now pid : Nat) :
     by_cases hD : qqx.head? = some 68 <;> simp [hD]
 
 /-- the size limit trips exactly at `databytes + 1` stored bytes: `put()`'s countdown started at databytes+1 reaches 0
-    after exactly that many bytes -/
+    after exactly that many bytes.  (Pure arithmetic of the countdown; its connection with `Smtp.data … .overflow` and
+    `.stored` is `C07_smtp_size`.) -/
 theorem C07_smtp_size_trip (db n : Nat) (hdb : db ≠ 0) : Smtp.decN (db + 1) n = 0 ↔ n ≥ db + 1 := by
   have key : ∀ (n b : Nat), Smtp.decN b n = b - n := by
     intro n; induction n with
@@ -796,6 +812,372 @@ example : Nq.HopCount.hopSpec ((List.replicate 100 [82, 101, 99, 101, 105, 118, 
 /-- lines after the empty line, near misses ("receive:", "Xreceived") and `Delivered-To:` -/
 example : Nq.HopCount.hopSpec [68, 69, 76, 73, 86, 69, 82, 69, 68, 45, 13, 10, 114, 101, 99, 101, 105, 118, 101, 58, 13, 10,
     88, 114, 101, 99, 101, 105, 118, 101, 100, 13, 10, 13, 10, 82, 101, 99, 101, 105, 118, 101, 100, 58, 13, 10] = 1 := by decide
+
+/-! ## 8b. the refusal flags tied to the input, the composed refusals, and the converse "committed ⇒ acknowledged"
+
+`C07_qmtp_ack`, `C07_qmqp_ack`, `C07_smtp_ack` are statements about the reply SELECTION for arbitrary values of the flags
+`overflow` / `senderok` / `flagok`.  The theorems of this section say what those flags are for the record the daemon model
+computes from the input (`Qmtp.msg`, `Qmqp.parse`, `Smtp.data`), that a flag saying "refuse" puts a `qmail_fail` among the
+calls on qmail.c — hence `flagerr`, a non-success verdict whatever the queue program answers, no complete envelope on
+descriptor 1, and the documented permanent reply — and, conversely, that a complete envelope together with exit status 0
+forces the acknowledgement. -/
+
+/-- "committed": the queue program was handed a complete envelope, exited 0 and did not crash (qmail-queue commits only
+    then: C01, and the real-queue leg of the correspondence run) -/
+def Committed (q : QQ) (e : QEnd) : Prop := envComplete q.envPipe = true ∧ e.exit = 0 ∧ e.crashed = false
+
+/-- **C07_smtp_size.**  For a terminated DATA: `overflow` ⇔ `databytes` is in force and the decoded message (the `stored`
+    bytes, which `C07_content_smtp` identifies with the output of the reference decoder `dblast`) is longer than it. -/
+theorem C07_smtp_size (cfg : Smtp.Cfg) (helo : Option Bytes) (mailfrom rcptto inp : Bytes)
+    (hstop : (Smtp.data cfg helo mailfrom rcptto inp).stop = none) :
+    (Smtp.data cfg helo mailfrom rcptto inp).overflow = true ↔
+      (cfg.databytes ≠ 0 ∧ (Smtp.data cfg helo mailfrom rcptto inp).stored.length > cfg.databytes) :=
+  Smtp.data_overflow_iff cfg helo mailfrom rcptto inp hstop
+
+/-- the calls of smtp_data() for a terminated DATA, split at `qmail_from` -/
+theorem smtp_calls (cfg : Smtp.Cfg) (helo : Option Bytes) (mailfrom : Bytes) (rs : List Bytes) (inp : Bytes)
+    (hstop : (Smtp.data cfg helo mailfrom (entries rs) inp).stop = none) :
+    ∃ a, (Smtp.data cfg helo mailfrom (entries rs) inp).ops = a ++ [.from_ mailfrom] ++ [.put (entries rs)] ++ [.close] ∧
+      ((Smtp.data cfg helo mailfrom (entries rs) inp).overflow = true → QOp.fail ∈ a) ∧
+      ((Smtp.data cfg helo mailfrom (entries rs) inp).hopsBad = true → QOp.fail ∈ a) := by
+  obtain ⟨rest, _, hops, _, _, _⟩ := Smtp.data_full cfg helo mailfrom (entries rs) inp hstop
+  refine ⟨_, hops, ?_, ?_⟩
+  · intro ho
+    have := Smtp.data_overflow_fail cfg helo mailfrom (entries rs) inp hstop ho
+    simp only [List.mem_append]
+    exact Or.inl (Or.inr this)
+  · intro hh
+    simp only [List.mem_append]
+    right; rw [hh]; simp
+
+/-- **C07_smtp_oversize.**  A message over the size limit (by `C07_smtp_size`: more than `databytes` decoded bytes): whatever
+    the queue program answers and whatever write faults occur, `qmail_close` reports a failure, the queue program finds no
+    complete envelope on descriptor 1, and — unless the hop limit takes precedence — the reply is exactly
+    `552 sorry, that message size exceeds my databytes limit (#5.3.4)`. -/
+theorem C07_smtp_oversize (cfg : Smtp.Cfg) (helo : Option Bytes) (mailfrom : Bytes) (rs : List Bytes) (inp : Bytes)
+    (w : Option Nat) (e : QEnd) (now pid : Nat) (ht : TextOK e.text ∨ e.text.length ≤ 2)
+    (hstop : (Smtp.data cfg helo mailfrom (entries rs) inp).stop = none)
+    (hbig : cfg.databytes ≠ 0 ∧ (Smtp.data cfg helo mailfrom (entries rs) inp).stored.length > cfg.databytes) :
+    ((QQ.opened w).run (Smtp.data cfg helo mailfrom (entries rs) inp).ops).verdict e ≠ [] ∧
+    envComplete ((QQ.opened w).run (Smtp.data cfg helo mailfrom (entries rs) inp).ops).envPipe = false ∧
+    ((Smtp.data cfg helo mailfrom (entries rs) inp).hopsBad = false →
+      Smtp.reply (Smtp.data cfg helo mailfrom (entries rs) inp)
+        (((QQ.opened w).run (Smtp.data cfg helo mailfrom (entries rs) inp).ops).verdict e) now pid = Smtp.sSize) := by
+  have ho := (C07_smtp_size cfg helo mailfrom (entries rs) inp hstop).mpr hbig
+  obtain ⟨a, hops, hfa, _⟩ := smtp_calls cfg helo mailfrom rs inp hstop
+  have hr := QQ.refused_of_fail (QQ.opened w) a [.put (entries rs)] mailfrom
+    (by intro op hop; simp at hop; subst hop; exact .rcptto rs) (Or.inl (hfa ho))
+  rw [← hops] at hr
+  have hv : ((QQ.opened w).run (Smtp.data cfg helo mailfrom (entries rs) inp).ops).verdict e ≠ [] := by
+    intro hv
+    have := (verdict_flagerr _ e ht hv).1
+    rw [hr.1] at this; exact absurd this (by decide)
+  exact ⟨hv, hr.2, fun hh => (C07_smtp_ack _ _ now pid).2.2.1 hv hh ho⟩
+
+/-- **C07_smtp_committed_ack** (the converse direction of the iff).  If after a terminated DATA the queue program was handed
+    a complete envelope and exited 0 without crashing, then nothing was refused — the message is within the size limit and
+    below the hop limit — and the reply is `250 ok …`. -/
+theorem C07_smtp_committed_ack (cfg : Smtp.Cfg) (helo : Option Bytes) (mailfrom : Bytes) (rs : List Bytes) (inp : Bytes)
+    (w : Option Nat) (e : QEnd) (now pid : Nat) (ht : TextOK e.text ∨ e.text.length ≤ 2)
+    (hstop : (Smtp.data cfg helo mailfrom (entries rs) inp).stop = none)
+    (hc : Committed ((QQ.opened w).run (Smtp.data cfg helo mailfrom (entries rs) inp).ops) e) :
+    ((QQ.opened w).run (Smtp.data cfg helo mailfrom (entries rs) inp).ops).verdict e = [] ∧
+    (Smtp.reply (Smtp.data cfg helo mailfrom (entries rs) inp)
+      (((QQ.opened w).run (Smtp.data cfg helo mailfrom (entries rs) inp).ops).verdict e) now pid).take 4 = [50, 53, 48, 32] ∧
+    (Smtp.data cfg helo mailfrom (entries rs) inp).overflow = false ∧
+    (Smtp.data cfg helo mailfrom (entries rs) inp).hopsBad = false := by
+  obtain ⟨a, hops, hfa, hfh⟩ := smtp_calls cfg helo mailfrom rs inp hstop
+  have hcn := QQ.complete_no_fail (QQ.opened w) a [.put (entries rs)] mailfrom
+    (by intro op hop; simp at hop; subst hop; exact .rcptto rs) (by rw [← hops]; exact hc.1)
+  rw [← hops] at hcn
+  have hv : ((QQ.opened w).run (Smtp.data cfg helo mailfrom (entries rs) inp).ops).verdict e = [] :=
+    (C07_verdict e.exit e.crashed _ e.text ht).mpr ⟨hc.2.1, hc.2.2, hcn.1⟩
+  refine ⟨hv, (C07_smtp_ack _ _ now pid).1.mpr hv, ?_, ?_⟩
+  · cases ho : (Smtp.data cfg helo mailfrom (entries rs) inp).overflow
+    · rfl
+    · exact absurd (hfa ho) hcn.2.1
+  · cases hh : (Smtp.data cfg helo mailfrom (entries rs) inp).hopsBad
+    · rfl
+    · exact absurd (hfh hh) hcn.2.1
+
+/-- **C07_qmtp_size** (both framings).  For a completely read message: `overflow` ⇔ `databytes` is in force and the decoded
+    message (`stored`, characterised by `C07_content_qmtp_decoded`) is longer than it. -/
+theorem C07_qmtp_size (cfg : Qmtp.Cfg) (inp : Bytes) (hstop : (Qmtp.msg cfg inp).stop = none) :
+    (Qmtp.msg cfg inp).overflow = true ↔ (cfg.databytes ≠ 0 ∧ (Qmtp.msg cfg inp).stored.length > cfg.databytes) :=
+  Qmtp.msg_overflow_iff cfg inp hstop
+
+/-- **C07_qmtp_strict** (accepted ⇒ strictly well framed; the envelope relative to the INPUT).  A message qmail-qmtpd reads to
+    the end — the only case in which it calls `qmail_close` and sends statuses — is, byte for byte, a message of the
+    independent strict grammar `Spec.C07.qmtpNext` (three netstrings, digits-only lengths, every comma in place, the third
+    a sequence of netstrings), followed by what the daemon left unread.  `sraw` / `as` are the payloads of the sender
+    netstring and of ALL recipient netstrings; `senderok` ⇔ the sender is shorter than 1000 bytes and has no NUL; there is
+    one failure byte per recipient (`rcptFail` of its payload, characterised by `C07_qmtp_rcpt_policy`), and the envelope
+    recipients (`rcpts`, what `C07_content_qmtp` finds on descriptor 1) are exactly the payloads whose failure byte is 0 —
+    the ones answered `K`/the queue's verdict rather than `D` (`C07_qmtp_rcpt_reply`) — in order, RELAYCLIENT appended.
+    The hypothesis is the generated constant: the recipient-length loop has its digit check (repair e90aa72); without it
+    this theorem is false (`C07_qmtp_rcptlen_gap`). -/
+theorem C07_qmtp_strict (cfg : Qmtp.Cfg) (inp : Bytes) (hstop : (Qmtp.msg cfg inp).stop = none) :
+    ∃ sraw as, Nq.Spec.C07.qmtpNext inp = some (⟨(Qmtp.msg cfg inp).stored, sraw, as⟩, (Qmtp.msg cfg inp).rest) ∧
+      (Qmtp.msg cfg inp).senderok = (decide (sraw.length < Nq.Gen.C07.qmtpAddrMax) && !sraw.contains 0) ∧
+      (Qmtp.msg cfg inp).sender = cstr (if sraw.length ≥ Nq.Gen.C07.qmtpAddrMax then [] else sraw) ∧
+      (Qmtp.msg cfg inp).failure = as.map (Qmtp.rcptFail cfg) ∧
+      (Qmtp.msg cfg inp).rcpts = (as.filter (fun a => Qmtp.rcptFail cfg a = 0)).map (· ++ cfg.relay.getD []) :=
+  Qmtp.msg_strict cfg inp (by decide) hstop
+
+/-- **C07_qmtp_refused.**  Size limit, unacceptable sender, or no recipient accepted (each a function of the input by
+    `C07_qmtp_size` / `C07_qmtp_strict`): whatever the queue program answers and whatever write faults occur, `flagerr` is
+    set, `qmail_close` reports a failure, the queue program finds no complete envelope on descriptor 1; the status sent
+    for the recipients handed to the queue is the permanent `Dsorry, that message size exceeds …` resp.
+    `Dunacceptable sender …`, and when no recipient was accepted every reply is one of the two permanent per-recipient
+    refusals. -/
+theorem C07_qmtp_refused (cfg : Qmtp.Cfg) (inp : Bytes) (w : Option Nat) (e : QEnd) (now pid : Nat)
+    (ht : TextOK e.text ∨ e.text.length ≤ 2) (hstop : (Qmtp.msg cfg inp).stop = none)
+    (hbad : (Qmtp.msg cfg inp).overflow = true ∨ (Qmtp.msg cfg inp).senderok = false ∨
+      (Qmtp.msg cfg inp).failure.contains 0 = false) :
+    ((QQ.opened w).run (Qmtp.msg cfg inp).ops).flagerr = true ∧
+    ((QQ.opened w).run (Qmtp.msg cfg inp).ops).verdict e ≠ [] ∧
+    envComplete ((QQ.opened w).run (Qmtp.msg cfg inp).ops).envPipe = false ∧
+    ((Qmtp.msg cfg inp).overflow = true →
+      Qmtp.result (Qmtp.msg cfg inp) (((QQ.opened w).run (Qmtp.msg cfg inp).ops).verdict e) now pid = Qmtp.sTooBig) ∧
+    ((Qmtp.msg cfg inp).overflow = false → (Qmtp.msg cfg inp).senderok = false →
+      Qmtp.result (Qmtp.msg cfg inp) (((QQ.opened w).run (Qmtp.msg cfg inp).ops).verdict e) now pid = Qmtp.sUnacceptable) ∧
+    ((Qmtp.msg cfg inp).failure.contains 0 = false → ∀ res, ∀ r ∈ Qmtp.replies (Qmtp.msg cfg inp) res,
+      r = Qmtp.sRcpthosts ∨ r = Qmtp.sCantHandle) := by
+  obtain ⟨a, eops, sbuf, hops, henv, h1, h2, h3⟩ := Qmtp.msg_calls cfg inp hstop
+  have hfail : QOp.fail ∈ a ∨ QOp.fail ∈ eops := by
+    rcases hbad with h | h | h
+    · exact Or.inl (h1 h)
+    · exact Or.inr (h2 h)
+    · exact Or.inr (h3 h)
+  have hr := QQ.refused_of_fail (QQ.opened w) a eops sbuf henv hfail
+  rw [← hops] at hr
+  have hv : ((QQ.opened w).run (Qmtp.msg cfg inp).ops).verdict e ≠ [] := by
+    intro hv
+    have := (verdict_flagerr _ e ht hv).1
+    rw [hr.1] at this; exact absurd this (by decide)
+  have hvok : VerdictOK (((QQ.opened w).run (Qmtp.msg cfg inp).ops).verdict e) := verdict_ok _ _ _ _ ht
+  refine ⟨hr.1, hv, hr.2, (C07_qmtp_ack _ _ now pid hvok).2.1, (C07_qmtp_ack _ _ now pid hvok).2.2.1, ?_⟩
+  intro hf res r hr'
+  unfold Qmtp.replies at hr'
+  rw [List.mem_map] at hr'
+  obtain ⟨f, hfm, rfl⟩ := hr'
+  have hf0 : f ≠ 0 := by
+    intro h0; subst h0
+    have : (Qmtp.msg cfg inp).failure.contains 0 = true := by simpa using hfm
+    rw [hf] at this; exact absurd this (by simp)
+  rw [if_neg hf0]
+  by_cases hD : f = Qmtp.fD
+  · left; rw [if_pos hD]
+  · right; rw [if_neg hD]
+
+/-- **C07_qmtp_committed_ack** (the converse direction of the iff).  If for a completely read message the queue program was
+    handed a complete envelope and exited 0 without crashing, then the message was within the size limit, the sender
+    acceptable, at least one recipient was accepted, `qmail_close` reports success and the status sent for the accepted
+    recipients is `Kok …`. -/
+theorem C07_qmtp_committed_ack (cfg : Qmtp.Cfg) (inp : Bytes) (w : Option Nat) (e : QEnd) (now pid : Nat)
+    (ht : TextOK e.text ∨ e.text.length ≤ 2) (hstop : (Qmtp.msg cfg inp).stop = none)
+    (hc : Committed ((QQ.opened w).run (Qmtp.msg cfg inp).ops) e) :
+    ((QQ.opened w).run (Qmtp.msg cfg inp).ops).verdict e = [] ∧
+    (Qmtp.result (Qmtp.msg cfg inp) (((QQ.opened w).run (Qmtp.msg cfg inp).ops).verdict e) now pid).head? = some 75 ∧
+    (Qmtp.msg cfg inp).overflow = false ∧ (Qmtp.msg cfg inp).senderok = true ∧
+    (Qmtp.msg cfg inp).failure.contains 0 = true := by
+  obtain ⟨a, eops, sbuf, hops, henv, h1, h2, h3⟩ := Qmtp.msg_calls cfg inp hstop
+  have hcn := QQ.complete_no_fail (QQ.opened w) a eops sbuf henv (by rw [← hops]; exact hc.1)
+  rw [← hops] at hcn
+  have hv : ((QQ.opened w).run (Qmtp.msg cfg inp).ops).verdict e = [] :=
+    (C07_verdict e.exit e.crashed _ e.text ht).mpr ⟨hc.2.1, hc.2.2, hcn.1⟩
+  have ho : (Qmtp.msg cfg inp).overflow = false := by
+    cases ho : (Qmtp.msg cfg inp).overflow
+    · rfl
+    · exact absurd (h1 ho) hcn.2.1
+  have hs : (Qmtp.msg cfg inp).senderok = true := by
+    cases hs : (Qmtp.msg cfg inp).senderok
+    · exact absurd (h2 hs) hcn.2.2
+    · rfl
+  have hf : (Qmtp.msg cfg inp).failure.contains 0 = true := by
+    cases hf : (Qmtp.msg cfg inp).failure.contains 0
+    · exact absurd (h3 hf) hcn.2.2
+    · rfl
+  refine ⟨hv, ?_, ho, hs, hf⟩
+  rw [hv]
+  exact (C07_qmtp_ack _ [] now pid (Or.inl rfl)).1.mpr ⟨rfl, hs, ho⟩
+
+open Nq.Lemmas.C07Qmqp2 in
+/-- **C07_qmqp_strict** (accepted ⇒ strictly well framed; flag and envelope relative to the INPUT).  A request qmail-qmqpd
+    reads to the end is a request of the independent strict grammar (`Spec.C07.qmqpReq`: one netstring holding the body
+    netstring, the sender netstring and the recipient netstrings); `flagok` is false exactly when the sender or some
+    recipient has 1000 or more bytes or contains NUL (`badA`); the envelope addresses are the acceptable ones in order —
+    when every address is acceptable: exactly the request's sender and recipients. -/
+theorem C07_qmqp_strict (cfg : Qmqp.Cfg) (inp : Bytes) (hstop : (Qmqp.parse cfg inp).stop = none) :
+    ∃ sraw rs, Nq.Spec.C07.qmqpReq inp = some ⟨(Qmqp.parse cfg inp).stored, sraw, rs⟩ ∧
+      (Qmqp.parse cfg inp).flagok = (!badA sraw && rs.all (fun a => !badA a)) ∧
+      (Qmqp.parse cfg inp).sender = (if badA sraw then [] else sraw) ∧
+      (Qmqp.parse cfg inp).rcpts = rs.filter (fun a => !badA a) :=
+  parse_qmqpReq cfg inp hstop
+
+open Nq.Lemmas.C07Qmqp2 in
+/-- **C07_qmqp_refused.**  An over-long or NUL-containing sender or recipient anywhere in a well-framed request: `flagerr` is
+    set, `qmail_close` reports a failure whatever the queue program answers, the queue program finds no complete envelope,
+    and the reply is exactly `Dsorry, I can't accept addresses like that (#5.1.3)`. -/
+theorem C07_qmqp_refused (cfg : Qmqp.Cfg) (inp : Bytes) (w : Option Nat) (e : QEnd) (now pid : Nat)
+    (ht : TextOK e.text ∨ e.text.length ≤ 2) (req : Nq.Spec.C07.Req)
+    (hstop : (Qmqp.parse cfg inp).stop = none) (hreq : Nq.Spec.C07.qmqpReq inp = some req)
+    (hbad : ∃ a ∈ req.sender :: req.rcpts, badA a = true) :
+    (Qmqp.parse cfg inp).flagok = false ∧
+    ((QQ.opened w).run (Qmqp.parse cfg inp).ops).verdict e ≠ [] ∧
+    envComplete ((QQ.opened w).run (Qmqp.parse cfg inp).ops).envPipe = false ∧
+    (Qmqp.run cfg w e pid inp).out = Qmtp.netstring Qmqp.sCantAccept := by
+  obtain ⟨hf, hne, hres⟩ := qmqp_bad_address_refused cfg inp w req hstop hreq hbad
+  have hfo : (Qmqp.parse cfg inp).flagok = false := by
+    obtain ⟨body, sraw, rs, hq, hiff⟩ := parse_flagok_iff cfg inp hstop
+    rw [hreq] at hq
+    simp only [Option.some.injEq] at hq
+    subst hq
+    exact hiff.mpr hbad
+  refine ⟨hfo, ?_, hne, ?_⟩
+  · intro hv
+    have := (verdict_flagerr _ e ht hv).1
+    rw [hf] at this; exact absurd this (by decide)
+  · unfold Qmqp.run
+    simp only [hstop]
+    rw [hres]
+
+open Nq.Lemmas.C07Qmqp2 in
+/-- **C07_qmqp_committed_ack** (the converse direction).  Complete envelope, exit 0, no crash ⇒ no address was refused,
+    `qmail_close` reports success and the reply is `Kok …`. -/
+theorem C07_qmqp_committed_ack (cfg : Qmqp.Cfg) (inp : Bytes) (w : Option Nat) (e : QEnd) (now pid : Nat)
+    (ht : TextOK e.text ∨ e.text.length ≤ 2) (hstop : (Qmqp.parse cfg inp).stop = none)
+    (hc : Committed ((QQ.opened w).run (Qmqp.parse cfg inp).ops) e) :
+    ((QQ.opened w).run (Qmqp.parse cfg inp).ops).verdict e = [] ∧ (Qmqp.parse cfg inp).flagok = true ∧
+    (Qmqp.result (Qmqp.parse cfg inp).flagok (((QQ.opened w).run (Qmqp.parse cfg inp).ops).verdict e) now pid).head? = some 75 := by
+  obtain ⟨hf, hok⟩ := qmqp_committed_flagok cfg inp w hstop hc.1
+  have hv : ((QQ.opened w).run (Qmqp.parse cfg inp).ops).verdict e = [] :=
+    (C07_verdict e.exit e.crashed _ e.text ht).mpr ⟨hc.2.1, hc.2.2, hf⟩
+  refine ⟨hv, hok, ?_⟩
+  rw [hv, hok]
+  exact (C07_qmqp_ack true [] now pid (Or.inl rfl)).1.mpr ⟨rfl, rfl⟩
+
+/-- non-vacuity: an oversize CR-framed QMTP message, a QMQP request with a NUL recipient -/
+example : (Qmtp.msg { databytes := 2, peer := ⟨none, none, none, none, none⟩ }
+    [53, 58, 13, 97, 13, 10, 98, 44, 49, 58, 115, 44, 52, 58, 49, 58, 114, 44, 44]).overflow = true := by decide
+
+/-! ## 8c. the QMTP connection: several messages, one reply buffer -/
+
+section session
+open Nq.Lemmas.C07Session
+
+/-- every record of a connection is `msg` of some input run on a fresh qmail.c state; a completely read one carries the
+    status string computed from ITS OWN verdict, for one of the scripted ends of the queue program -/
+theorem chain_record {cfg : Qmtp.Cfg} (P : QEnd → Prop) (h0 : P {}) :
+    ∀ {inp : Bytes} {w : Option Nat} {ends : List QEnd} {pids : List Nat} {l : List Qmtp.Done},
+      Chain cfg inp w ends pids l → (∀ e ∈ ends, P e) →
+      ∀ d ∈ l, ∃ inp' w', d.m = Qmtp.msg cfg inp' ∧ d.q = (QQ.opened w').run d.m.ops ∧
+        (d.m.stop = none → ∃ e pid, P e ∧ d.res = Qmtp.result d.m (d.q.verdict e) cfg.now pid) := by
+  intro inp w ends pids l hc
+  induction hc with
+  | nil inp w ends pids => intro _ d hd; simp at hd
+  | last inp w ends pids h =>
+    intro _ d hd
+    simp only [List.mem_singleton] at hd
+    subst hd
+    exact ⟨inp, w, rfl, rfl, fun hs => absurd hs h⟩
+  | cons inp w ends pids rest h t ih =>
+    intro hP d hd
+    rcases List.mem_cons.mp hd with hd | hd
+    · subst hd
+      refine ⟨inp, w, rfl, rfl, fun _ => ⟨ends.headD {}, pids.headD 0, ?_, rfl⟩⟩
+      cases ends with
+      | nil => exact h0
+      | cons e es => exact hP e (by simp)
+    · apply ih _ d hd
+      intro e he
+      split at he
+      · exact hP e (List.mem_of_mem_tail he)
+      · exact hP e he
+
+/-- **C07_qmtp_session** (session-level composition).  For a whole QMTP connection (any number of messages, any read
+    chunking, any write-fault schedule, the queue runs ending as scripted by `ends` — each honouring the interface):
+    (1) what the client has received when the daemon exits is a PREFIX of the replies of the completely read messages, in
+    order (`acked`: a message inside which the daemon exits contributes nothing; replies still in the 256-byte buffer can
+    be lost, none is invented or reordered);
+    (2) every completely read message `d` is `Qmtp.msg` of what the previous one left unread, run on a fresh qmail.c state,
+    and its replies are `netstring d.res` for the accepted recipients and the two permanent refusals for the others,
+    where `d.res` is computed from d's OWN verdict;
+    (3) if that status is `K…` then (by `C07_qmtp_ack` and `C07_content_qmtp`) d's queue program exited 0 without crashing
+    and had received exactly the Received field ++ the decoded body on descriptor 0 and the envelope of d's sender and
+    accepted recipients on descriptor 1.
+    So every `K` the client sees belongs to a message that was handed over completely and reported queued. -/
+theorem C07_qmtp_session (cfg : Qmtp.Cfg) (w : Option Nat) (ends : List QEnd) (pids : List Nat) (inp : Bytes)
+    (hends : ∀ e ∈ ends, TextOK e.text ∨ e.text.length ≤ 2) :
+    (Qmtp.run cfg w ends pids inp).out <+: acked (Qmtp.run cfg w ends pids inp).msgs ∧
+    ∀ d ∈ (Qmtp.run cfg w ends pids inp).msgs, d.m.stop = none →
+      (∀ r ∈ Qmtp.replies d.m d.res, r = Qmtp.netstring d.res ∨ r = Qmtp.sRcpthosts ∨ r = Qmtp.sCantHandle) ∧
+      ∃ inp' w' e pid, d.m = Qmtp.msg cfg inp' ∧ d.q = (QQ.opened w').run d.m.ops ∧
+        d.res = Qmtp.result d.m (d.q.verdict e) cfg.now pid ∧
+        (d.res.head? = some 75 →
+          d.q.verdict e = [] ∧ d.m.senderok = true ∧ d.m.overflow = false ∧ e.exit = 0 ∧ e.crashed = false ∧
+          d.q.msgPipe = received pQMTP cfg.peer none cfg.now ++ d.m.stored ∧
+          d.q.envPipe = envelope d.m.sender (d.m.rcpts.map cstr)) := by
+  refine ⟨run_out_acked cfg w ends pids inp, fun d hd hstop => ⟨?_, ?_⟩⟩
+  · intro r hr
+    unfold Qmtp.replies at hr
+    rw [List.mem_map] at hr
+    obtain ⟨f, _, rfl⟩ := hr
+    by_cases h0 : f = 0
+    · left; rw [if_pos h0]
+    · rw [if_neg h0]
+      by_cases hD : f = Qmtp.fD
+      · right; left; rw [if_pos hD]
+      · right; right; rw [if_neg hD]
+  · obtain ⟨inp', w', hm, hq, hres⟩ := chain_record (cfg := cfg) (fun e => TextOK e.text ∨ e.text.length ≤ 2)
+      (Or.inr (by decide)) (run_chain cfg w ends pids inp) hends d hd
+    obtain ⟨e, pid, ht, hr⟩ := hres hstop
+    refine ⟨inp', w', e, pid, hm, hq, hr, fun hK => ?_⟩
+    have hvok : VerdictOK (d.q.verdict e) := verdict_ok _ _ _ _ ht
+    rw [hr] at hK
+    obtain ⟨hv, hs, ho⟩ := (C07_qmtp_ack d.m (d.q.verdict e) cfg.now pid hvok).1.mp hK
+    have hstop' : (Qmtp.msg cfg inp').stop = none := by rw [← hm]; exact hstop
+    have hq' : d.q = (QQ.opened w').run (Qmtp.msg cfg inp').ops := by rw [hq, hm]
+    have hc := C07_content_qmtp cfg inp' w' e ht hstop' (by rw [← hq']; exact hv)
+    rw [← hq', ← hm] at hc
+    exact ⟨hv, hs, ho, hc.2.2.1, hc.2.2.2, hc.1, hc.2.1⟩
+
+/-- **C07_cut_qmtp_later** (the cut inside message k+1).  Let the connection consist of `k` complete messages `p`
+    (`Complete cfg k p`) followed by the first `j` bytes of a further message that would be complete only after more than
+    `j` bytes.  Then the connection's records are the `k` records of `p` (up to the unread-remainder field) followed by ONE
+    record `d` for the truncated message: the daemon exits inside it (`d.m.stop` is the connection's exit, no status was
+    computed), its queue program — running on the write-fault counter the earlier messages left — finds no complete
+    envelope on descriptor 1, and everything the client has received is a prefix of the replies of the first `k`
+    messages: the truncated message is neither acknowledged nor queued, whatever came before it on the connection. -/
+theorem C07_cut_qmtp_later (cfg : Qmtp.Cfg) (w : Option Nat) (ends : List QEnd) (pids : List Nat) {k : Nat} {p : Bytes}
+    (hp : Complete cfg k p) (inp' : Bytes) (h : (Qmtp.msg cfg inp').stop = none) (j : Nat)
+    (hj : j < inp'.length - (Qmtp.msg cfg inp').rest.length) :
+    ((Qmtp.run cfg w ends pids p).msgs.take k).length = k ∧
+    (∀ x ∈ (Qmtp.run cfg w ends pids p).msgs.take k, x.m.stop = none) ∧
+    ∃ (w' : Option Nat) (d : Qmtp.Done),
+      (Qmtp.run cfg w ends pids (p ++ inp'.take j)).msgs =
+        ((Qmtp.run cfg w ends pids p).msgs.take k).map (addRest (inp'.take j)) ++ [d] ∧
+      d.m = Qmtp.msg cfg (inp'.take j) ∧ d.m.stop ≠ none ∧ d.res = [] ∧
+      d.q = (QQ.opened w').run d.m.ops ∧ envComplete d.q.envPipe = false ∧
+      d.m.stop = some (Qmtp.run cfg w ends pids (p ++ inp'.take j)).exit ∧
+      (Qmtp.run cfg w ends pids (p ++ inp'.take j)).out <+:
+        (((Qmtp.run cfg w ends pids p).msgs.take k).map (fun d => (Qmtp.replies d.m d.res).flatten)).flatten := by
+  obtain ⟨h1, h2, w', d, h3, h4, h5, h6, h7, h8, h9, h10, _⟩ := run_cut_later cfg w ends pids hp inp' h j hj
+  exact ⟨h1, h2, w', d, h3, h4, h5, h6, h7, h8, h9, h10⟩
+
+/-- whatever the connection, the record the daemon exits in was not queued -/
+theorem C07_qmtp_session_last (cfg : Qmtp.Cfg) (w : Option Nat) (ends : List QEnd) (pids : List Nat) (inp : Bytes) :
+    ∃ init d, (Qmtp.run cfg w ends pids inp).msgs = init ++ [d] ∧ (∀ x ∈ init, x.m.stop = none) ∧
+      d.m.stop ≠ none ∧ envComplete d.q.envPipe = false :=
+  run_last_stopped cfg w ends pids inp
+
+/-- non-vacuity: two complete messages on one connection -/
+example : Complete { peer := ⟨none, none, none, none, none⟩ } 2
+    ([51, 58, 10, 120, 10, 44, 49, 58, 115, 44, 52, 58, 49, 58, 114, 44, 44] ++
+     ([51, 58, 10, 121, 10, 44, 49, 58, 116, 44, 52, 58, 49, 58, 114, 44, 44] ++ [])) :=
+  .succ (by decide) (by decide) (.succ (by decide) (by decide) .zero)
+
+end session
 
 /-! ## 9. the date of the Received field: datetime_tai is the Gregorian calendar, date822fmt its RFC 822 rendering -/
 
